@@ -220,12 +220,13 @@ func annotate(ex execResult) traceOut {
 		case opSub:
 			subs = append(subs, st)
 			closed = append(closed, false)
-			out.add(fmt.Sprintf("XSub %d %s %s %s %s", st.Cap, fcodeCoq(st), cw.Z(tmoTicks[st.Tmo]), cw.B(st.OnF), cw.B(st.OnT)),
-				fmt.Sprintf("sub cap=%d filt=%s tmo=%dticks onF=%v onT=%v", st.Cap, fcodeCoq(st), tmoTicks[st.Tmo], st.OnF, st.OnT))
+			out.add(fmt.Sprintf("XSub %d %s", st.Cap, optsCoq(st)),
+				fmt.Sprintf("sub cap=%d filt=%s tmo=%dticks onF=%v onT=%v options=%v", st.Cap, fcodeCoq(st), tmoTicks[st.Tmo], st.OnF, st.OnT, optOrder(st)))
 		case opPub:
 			p := pubsSeen
 			pubsSeen++
 			var vis []int
+			visitedAt := map[int]time.Duration{} // when the subscriber's filter returned (subscribers with a filter)
 			for s := range subs {
 				if subs[s].FK == 0 && !closed[s] {
 					vis = append(vis, s)
@@ -234,11 +235,19 @@ func annotate(ex execResult) traceOut {
 			for _, e := range ex.events[sr.evFrom:sr.evTo] {
 				if e.kind == evFilter {
 					vis = append(vis, e.sid)
+					if _, dup := visitedAt[e.sid]; !dup {
+						visitedAt[e.sid] = e.t
+					}
 				}
 			}
 			out.add(fmt.Sprintf("XPub %d %s", st.M, cw.ZL(vis)), fmt.Sprintf("pub m=%d visited=%v", st.M, vis))
 			for _, s := range vis {
 				if s < len(subs) && accepts(subs[s], st.M) && findPair(p, s) == nil {
+					// the delivery goroutine of a filtered subscriber cannot have started before its filter
+					// returned: its own timeout runs from then (time spent on other subscribers does not count)
+					if t, ok := visitedAt[s]; ok {
+						emitTick(t)
+					}
 					q := &pairSt{p: p, s: s, dl: cur + max(0, tmoTicks[subs[s].Tmo]), everRecv: everRecv(s, p)}
 					pairs = append(pairs, q)
 					out.add(fmt.Sprintf("XEnter %d %d", p, s), fmt.Sprintf("enter p%d s%d", p, s))
